@@ -233,7 +233,7 @@ func bigFreelist(c *Ctx, cov map[string]any) {
 }
 
 func runC12(c *Ctx) int {
-	mon := exec.Monitors{Dumps: true, Format: true}
+	mon := exec.Monitors{Dumps: true, Format: true, Backups: true}
 	if c.Replay != "" {
 		return c.replayAPI(mon, 1_000_000)
 	}
